@@ -20,15 +20,21 @@ def run(ctx):
         jobs.append({'kind': 'admin', 'depth': 1, 'second': True, 'limits': limits})
         for first in (['auto_add_nodes'], ['replace_failed_proxy(member0)'], ['remove_cluster(c2)'], ['add_failure(free)']):
             jobs.append({'kind': 'admin', 'depth': 2, 'second': True, 'limits': limits, 'first': first})
+        # two chunks with every combination of role positions (states after earlier failovers): one operation
+        jobs.append({'kind': 'admin', 'depth': 1, 'second': False, 'limits': limits, 'chunks': 2, 'layout': [4, 4], 'roles': True,
+                     'first': ['balance_masters', 'change_config', 'replace_failed_proxy(member0)', 'replace_failed_proxy(member1)', 'auto_delete_free_nodes']})
     else:
         menu_names = ['add_proxy(new)', 'add_proxy(existing free)', 'add_proxy(existing member)', 'remove_proxy(free)', 'remove_proxy(member)',
                       'add_failure(free)', 'add_failure(member)', 'replace_failed_proxy(member0)', 'replace_failed_proxy(member1)',
-                      'replace_failed_proxy(free)', 'balance_masters', 'change_config', 'change_config(noop value)', 'auto_add_nodes', 'auto_scale_up_nodes',
+                      'replace_failed_proxy(free)', 'balance_masters', 'change_config', 'change_config(noop value)', 'change_config(valid key then rejected key)',
+                      'change_config(rejected key then valid key)', 'change_config(unknown key)', 'auto_add_nodes', 'auto_scale_up_nodes',
                       'auto_delete_free_nodes', 'migrate_slots', 'auto_scale_out_node_number', 'auto_change_node_number(8)', 'remove_cluster(c2)',
                       'remove_cluster(c1)', 'add_cluster(c3)', 'force_bump_all_epoch', 'recover_epoch', 'commit_migration(bogus)']
         for first in menu_names:
             for second in (True, False):
                 jobs.append({'kind': 'admin', 'depth': 3 if first in ('auto_add_nodes', 'replace_failed_proxy(member0)') else 2, 'second': second, 'limits': limits, 'first': [first], 'roles': second})
+        for first in ('balance_masters', 'change_config', 'replace_failed_proxy(member0)', 'replace_failed_proxy(member1)', 'auto_delete_free_nodes', 'migrate_slots', 'add_failure(member)'):
+            jobs.append({'kind': 'admin', 'depth': 2, 'second': False, 'limits': limits, 'chunks': 2, 'layout': [4, 4], 'roles': True, 'first': [first]})
     ctx.bounds = {'slot_num': SLOT_NUM, 'jobs': len(jobs), 'migration_limits': list(limits), 'history_depth': '<= 2 admin operations after set-up (quick) / <= 3 (thorough); resize histories of C01',
                   'symbolic': 'global epoch, cluster epochs, tile boundaries, force/recover epoch arguments', 'enumerated': 'operation choice, shapes'}
     ctx.assumptions += ['global epoch < 2^63 (wrap of global_epoch + 1 is outside the claim)', 'cluster.epoch <= global_epoch in the pre-state']
